@@ -350,6 +350,10 @@ type ScriptBackend struct {
 
 	closures []*closureRec
 	inDeq    bool
+	// onReceived runs on the processor goroutine after the n-th packet (over the lifetime) has been read and
+	// before it is processed: the place to make something happen "between read and handling"
+	onReceived func(n int)
+	received   int
 	queue    chan *packet.Message
 	wg       sync.WaitGroup
 }
@@ -527,6 +531,13 @@ func (b *ScriptBackend) Terminate(*broker.Client) error {
 }
 
 func (b *ScriptBackend) Log(ev broker.LogEvent, _ *broker.Client, _ packet.Generic, _ *packet.Message, err error) {
+	if ev == broker.PacketReceived && b.onReceived != nil {
+		b.mu.Lock()
+		b.received++
+		n := b.received
+		b.mu.Unlock()
+		b.onReceived(n)
+	}
 	switch ev {
 	case broker.TransportError:
 		b.log.add("Die %%g transport")
